@@ -59,3 +59,19 @@ let facts_file file implfile brute_max =
       print_newline ()
     end);
   close_in ic2
+
+(* `driver layout FILE`: lines "<hl> <nl> <A|U>" *)
+let layout_file file =
+  iter_lines file (fun line ->
+    match String.split_on_char ' ' line with
+    | hl :: nl :: r :: _ ->
+      let hl = n_of_int (int_of_string hl) and nl = n_of_int (int_of_string nl) and hr = repr_of r in
+      if not (slab_alloc_ok hr hl nl) then print_endline "refused"
+      else begin
+        let ((((o1, o2), o3), o4), o5) = layout_offsets hr hl nl in
+        let ((((l1, l2), l3), l4), l5) = view_lengths hr hl nl in
+        Printf.printf "ok slab=%d %d+%d %d+%d %d+%d %d+%d %d+%d\n" (int_of_n sLAB_SIZE)
+          (int_of_n o1) (int_of_n l1) (int_of_n o2) (int_of_n l2) (int_of_n o3) (int_of_n l3)
+          (int_of_n o4) (int_of_n l4) (int_of_n o5) (int_of_n l5)
+      end
+    | _ -> ())
